@@ -29,6 +29,7 @@ extern "C" void harness() {
   } else {
     __CPROVER_assert(started <= 1, "post C06: the command is started at most once");
     int s = vf_first(EV_START);
+    __CPROVER_assert(!(started == 1) || !disk.vf_prep_failed, "post C04: the command is started only if every output directory, the depfile directory and the response file could be prepared");
     if (started == 1) {
       __CPROVER_assert(s == vf_ev_n - 1, "post C04: starting the command is the last thing StartEdge does (everything it needs is in place before)");
       for (int i = 0; i < NOUT; i++) { int k = vf_find(EV_MKDIRS, id_out[i]); __CPROVER_assert(k >= 0 && k < s, "post C04: the directory of every output exists before the command starts"); }
